@@ -6,7 +6,7 @@ from common_tb import COMMON_TB
 CFG = dict(
     id="C12", tie="Tie.C12", n_quick=200, n_thorough=1500, thorough_seeds=3,
     rule="a case is one history on a fresh table t(id INTEGER [AUTO_INCREMENT] PK, v INTEGER [NOT NULL], s VARCHAR[1..4]) "
-         "[CHECK (v >= 0)]: 10 scripted histories (the witnesses of every known defect, honest concurrent duplicates, "
+         "[CHECK (v >= 0)]: 11 scripted histories (the witnesses of every known defect, honest concurrent duplicates, "
          "delete/re-insert, auto-increment mixed with explicit ids) plus random histories of 8-26 events by 1 session (60%) "
          "or 2 sessions interleaved under a random schedule (40%): autocommit statements, multi-statement implicit "
          "transactions, BEGIN/statement/COMMIT/ROLLBACK, CREATE [UNIQUE] INDEX on populated tables; statements: INSERT "
@@ -30,7 +30,12 @@ CFG = dict(
         "tbtree readers are modelled as order-preserving scans of the materialised key list; the primary index is keyed by "
         "the integer primary key (order preservation of the INTEGER key encoding is C15's subject)",
         "each critical section (statement execution against a snapshot, commit with validation) executes atomically, as "
-        "the harness drives both sessions from one goroutine",
+        "the harness drives both sessions from one goroutine; every engine call is bounded by a 20 s watchdog and an "
+        "engine that stops answering (e.g. an indexer stuck on an entry it cannot map) is reported as a finding",
+        "direct checks on the implementation (falsifier): after every event the table read back through the primary index is "
+        "checked against PK uniqueness, NOT NULL, CHECK, type/length, UNIQUE index duplicates, 'a failed event changes "
+        "nothing' and 'INSERT never changes an existing row'; a duplicate is attributed to the known first-key defect only "
+        "when a probe of the store index taken before the statement ran shows a tombstone first under that value prefix",
     ],
     assumptions=[
         "Go control flow transliterated by hand; every observable difference on the generated histories is a reported disagreement",
